@@ -229,6 +229,7 @@ func checkC17(c *Ctx) {
 	checkSchemaTypeInvariant(c, pk, reviewedHit["processSchema › index › param.Schema"])
 	checkCollectionPasses(c, pk)
 	checkPackageIdentity(c, "C17.R6.package-identity", pk)
+	checkMakeSizes(c, "C17.R6.collection", pk)
 	checkNoopDeletes(c, "C17.R6.collection", pk)
 	checkSplitURL(c, pk)
 	checkResponsePrecedence(c, pk)
